@@ -1,0 +1,13 @@
+//go:build verif
+
+package message
+
+// VerifLayout exposes the wire order (struct field indexes), the base and extended payload
+// sizes of an initialized ReadWriter. Test instrumentation only (build tag verif).
+func (rw *ReadWriter) VerifLayout() ([]int, byte, byte) {
+	order := make([]int, len(rw.fields))
+	for i, f := range rw.fields {
+		order[i] = f.index
+	}
+	return order, rw.sizeNormal, rw.sizeExtended
+}
